@@ -47,7 +47,7 @@ Section Shape.
 
   Ltac same :=
     left; eexists; split; [reflexivity|]; split; [reflexivity|];
-    cbn; intros l E; inversion E; subst; cbn; auto.
+    cbn; intros l_succ E_succ; inversion E_succ; subst; cbn; auto.
 
   Lemma exec_shape : forall i f rest g w s',
     exec_insn cp fname i f rest g w = Next s' ->
@@ -55,18 +55,116 @@ Section Shape.
   Proof.
     intros i f rest g w s' H. unfold exec_insn, of_pres, fail in H.
     destruct i; try (brk H; inversion H; subst; clear H; same; fail).
-    - (* ITERPUSH *) brk H; inversion H; subst; clear H. same.
     - (* ITERPOP *) brk H; inversion H; subst; clear H.
       left; eexists; split; [reflexivity|]; split; [reflexivity|].
-      cbn. match goal with E : fr_iters f = _ |- _ => rewrite E end. cbn. intros l E; inversion E; subst; cbn; auto.
+      cbn. match goal with E : fr_iters f = _ |- _ => rewrite E end. cbn. intros l_succ E_succ; inversion E_succ; subst; cbn; auto.
     - (* ITERJMP *) brk H; inversion H; subst; clear H;
       (left; eexists; split; [reflexivity|]; split; [reflexivity|];
-       cbn; match goal with E : fr_iters f = _ |- _ => rewrite E end; cbn; intros l E; inversion E; subst; cbn; auto).
+       cbn; match goal with E : fr_iters f = _ |- _ => rewrite E end; cbn; intros l_succ E_succ; inversion E_succ; subst; cbn; auto).
     - (* RETURN *) brk H; inversion H; subst; clear H.
       right; right. split; [|reflexivity]. do 3 eexists. split; [reflexivity|]. cbn. repeat split.
-    - (* CJMP *) brk H; inversion H; subst; clear H; same.
     - (* CALL *) unfold call_value, of_pres, fail in H.
       brk H; inversion H; subst; clear H; try (same; fail);
       (right; left; split; [|do 4 eexists; reflexivity]; do 2 eexists; split; [reflexivity|]; cbn; repeat split; eauto).
   Qed.
 End Shape.
+
+Section Inv.
+  Variable cp : cprog.
+  Variable fname : nat -> string.
+  Hypothesis CO : codes_ok cp.
+
+  Lemma step_inv : forall s s',
+    Forall frame_depth_ok (vs_frames s) -> step cp fname s = Next s' -> Forall frame_depth_ok (vs_frames s').
+  Proof.
+    intros s s' F H. unfold step in H. destruct (vs_frames s) as [|f rest] eqn:Ef; [discriminate|].
+    destruct (nth_error (fr_code f) (fr_pc f)) as [i|] eqn:Ei; [|discriminate].
+    inversion F as [|? ? Ff Fr]; subst.
+    destruct (depth_step _ _ _ _ Ff Ei) as (l & El & Hl).
+    destruct (exec_shape cp fname _ _ _ _ _ _ H) as [S|[[C I]|[R _]]].
+    - destruct S as (f' & E1 & E2 & E3). rewrite E1. constructor; auto.
+      unfold frame_depth_ok. rewrite E2. apply Hl. apply E3; auto.
+    - destruct C as (callee & f' & E1 & E2 & E3 & E4 & E5 & E6 & fid & fc & E7 & E8).
+      destruct I as (q & a & b & c & ->). cbn [succs] in El. inversion El; subst l.
+      rewrite E1. constructor; [|constructor; auto].
+      + unfold frame_depth_ok. rewrite E8, E5, E6. apply depth_entry. destruct CO as [_ CF]. eapply CF; eauto.
+      + unfold frame_depth_ok. rewrite E2, E3, E4. apply Hl. left. reflexivity.
+    - destruct R as (c & rest' & c' & E1 & E2 & E3 & E4 & E5). subst rest. rewrite E2.
+      inversion Fr as [|? ? Fc Fr']; subst. constructor; auto.
+      unfold frame_depth_ok in *. rewrite E3, E4, E5. auto.
+  Qed.
+
+  Lemma reach_inv : forall s0 s, reach cp fname s0 s ->
+    Forall frame_depth_ok (vs_frames s0) -> Forall frame_depth_ok (vs_frames s).
+  Proof. induction 1 as [|s s1 s2 R IH St]; intros F0; auto. eapply step_inv; [apply IH; auto | exact St]. Qed.
+
+  Lemma init_inv : forall n, Forall frame_depth_ok (vs_frames (init_state cp n)).
+  Proof.
+    intros n. unfold init_state. destruct (spill _ _ _) as [l1 w1]. cbn [vs_frames].
+    constructor; [|constructor]. unfold frame_depth_ok. cbn [fr_code fr_pc fr_iters length].
+    apply depth_entry. apply CO.
+  Qed.
+End Inv.
+
+Lemma find_code_map : forall p l fid fc,
+  find_code (map (fun d => (fst d, compile_fun p (snd d))) l) fid = Some fc -> exists fd, fc = compile_fun p fd.
+Proof.
+  induction l as [|[i fd] r IH]; intros fid fc H; cbn [map find_code fst snd] in H; [discriminate|].
+  destruct (Nat.eqb i fid); [inversion H; eauto | eauto].
+Qed.
+
+Lemma compile_codes_ok : forall p, codes_ok (compile_prog p).
+Proof.
+  intros p. split.
+  - cbn [compile_prog cp_top fc_code]. apply codegen_pairs_iterpush_lemma.
+  - intros fid fc H. cbn [compile_prog cp_funs] in H. destruct (find_code_map _ _ _ _ H) as [fd ->].
+    cbn [compile_fun fc_code]. apply codegen_pairs_iterpush_lemma.
+Qed.
+
+Lemma compiled_iter_depth_lemma : forall p fname n s,
+  reach (compile_prog p) fname (init_state (compile_prog p) n) s ->
+  Forall frame_depth_ok (vs_frames s).
+Proof.
+  intros p fname n s R. eapply reach_inv; eauto using compile_codes_ok. apply init_inv, compile_codes_ok.
+Qed.
+
+(* in a frame running a compiled body: at the first pc of a statement and at the pc
+   after its last instruction the iterator stack has the statement's static depth *)
+Lemma compiled_span_depth_lemma : forall p fname n s fr locals body a b d k,
+  reach (compile_prog p) fname (init_state (compile_prog p) n) s ->
+  List.In fr (vs_frames s) ->
+  fr_code fr = gen_body p locals body ->
+  List.In (a, b, d, k) (spans_block p locals 0 0 body) ->
+  (fr_pc fr = a \/ fr_pc fr = b) ->
+  length (fr_iters fr) = d.
+Proof.
+  intros p fname n s fr locals body a b d k R Hin Ec Hs Hpc.
+  pose proof (compiled_iter_depth_lemma _ _ _ _ R) as F. rewrite Forall_forall in F. specialize (F _ Hin).
+  unfold frame_depth_ok in F. rewrite Ec in F.
+  destruct (codegen_pairs_iterpush_lemma p locals body) as (_ & _ & _ & Ag & Sp).
+  destruct (Sp _ _ _ _ Hs) as (_ & _ & S1 & S2 & _).
+  pose proof (Ag _ _ F) as G. destruct Hpc as [E|E]; rewrite E in G; congruence.
+Qed.
+
+(* the meaning of the checker for ANY bytecode (e.g. the real compiler's): if every
+   function of the program passes the dataflow, every frame of every reachable
+   state has an iterator stack of the depth inferred for its pc *)
+Lemma dataflow_sound_lemma : forall cp fname n s,
+  codes_ok cp -> reach cp fname (init_state cp n) s -> Forall frame_depth_ok (vs_frames s).
+Proof. intros cp fname n s CO R. eapply reach_inv; eauto. apply init_inv; auto. Qed.
+
+(* k steps of the machine *)
+Fixpoint nsteps (cp : cprog) (fname : nat -> string) (k : nat) (s : vstate) : option vstate :=
+  match k with
+  | O => Some s
+  | S k => match step cp fname s with Next s' => nsteps cp fname k s' | Stop _ => None end
+  end.
+Lemma nsteps_reach : forall cp fname k s s', nsteps cp fname k s = Some s' -> reach cp fname s s'.
+Proof.
+  intros cp fname k s s' H. 
+  assert (G : forall k s0 s1, reach cp fname s0 s1 -> nsteps cp fname k s1 = Some s' -> reach cp fname s0 s').
+  { induction k0 as [|k0 IH]; intros s0 s1 R E; cbn [nsteps] in E.
+    - inversion E; subst; auto.
+    - destruct (step cp fname s1) as [s2|] eqn:Es; [|discriminate]. eapply IH; [|exact E]. eapply reach_step; eauto. }
+  eapply G; [apply reach_refl | exact H].
+Qed.
